@@ -31,6 +31,9 @@ type FConn struct {
 	inWrite        atomic.Int32
 	closeOnce      sync.Once
 	wdl            time.Time // write deadline (honoured by a stalled write)
+	pauseAt        int64     // <0: never; otherwise writes block once this many bytes have been written ...
+	gate           chan struct{} // ... until Resume closes this
+	paused         atomic.Bool
 }
 
 type timeoutErr struct{}
@@ -60,6 +63,27 @@ func (c *FConn) Write(p []byte) (int, error) {
 	st := c.stall
 	dl := c.wdl
 	c.mu.Unlock()
+	c.mu.Lock()
+	gate := c.gate
+	hold := gate != nil && c.pauseAt >= 0 && c.written.Load() >= c.pauseAt
+	c.mu.Unlock()
+	if hold {
+		c.paused.Store(true)
+		if dl.IsZero() {
+			<-gate
+		} else {
+			t := time.NewTimer(time.Until(dl))
+			select {
+			case <-gate:
+				t.Stop()
+			case <-t.C:
+				c.writeFailed.Store(true)
+				c.paused.Store(false)
+				return 0, timeoutErr{}
+			}
+		}
+		c.paused.Store(false)
+	}
 	if st != nil {
 		if dl.IsZero() {
 			<-st
@@ -112,6 +136,11 @@ func (c *FConn) kill() error {
 			close(c.stall)
 			c.stall = nil
 		}
+		if c.gate != nil {
+			close(c.gate)
+			c.gate = nil
+			c.pauseAt = -1
+		}
 		c.budget = 0
 		c.mu.Unlock()
 		err = c.Conn.Close()
@@ -127,6 +156,30 @@ func (c *FConn) Kill() { c.kill() }
 func (c *FConn) CutWritesAfter(n int) {
 	c.mu.Lock()
 	c.budget = int64(n)
+	c.mu.Unlock()
+}
+
+// PauseAfter makes writes block (a reader that has fallen behind) as soon as n more
+// bytes have been written, until Resume.  The write that crosses the mark completes.
+func (c *FConn) PauseAfter(n int64) {
+	c.mu.Lock()
+	c.pauseAt = c.written.Load() + n
+	if c.gate == nil {
+		c.gate = make(chan struct{})
+	}
+	c.mu.Unlock()
+}
+
+// Paused: a write of the server is blocked at the pause mark right now.
+func (c *FConn) Paused() bool { return c.paused.Load() }
+
+func (c *FConn) Resume() {
+	c.mu.Lock()
+	if c.gate != nil {
+		close(c.gate)
+		c.gate = nil
+	}
+	c.pauseAt = -1
 	c.mu.Unlock()
 }
 
@@ -167,7 +220,7 @@ func (l *FListener) Accept() (net.Conn, error) {
 	if tc, ok := c.(*net.TCPConn); ok {
 		tc.SetNoDelay(true)
 	}
-	fc := &FConn{Conn: c, budget: -1}
+	fc := &FConn{Conn: c, budget: -1, pauseAt: -1}
 	l.mu.Lock()
 	l.conns[c.RemoteAddr().String()] = fc
 	l.mu.Unlock()
